@@ -904,6 +904,7 @@ func (i *interpreter) unop(instr *ssa.UnOp, x value) value {
 		if p == nil {
 			panic(runtimePanic{"invalid memory address or nil pointer dereference"})
 		}
+		i.guardCheck(p, false)
 		return load(mustDeref(instr.X.Type()), p)
 	case token.NOT:
 		return !x.(bool)
@@ -1027,6 +1028,7 @@ func callBuiltin(caller *frame, callpos token.Pos, fn *ssa.Builtin, args []value
 		return nil
 
 	case "delete": // delete(map[K]value, K)
+		i.guardCheckObj(args[0].(*omap), true)
 		i.mapDelete(args[0].(*omap), args[1])
 		return nil
 
@@ -1069,6 +1071,7 @@ func callBuiltin(caller *frame, callpos token.Pos, fn *ssa.Builtin, args []value
 		case []value:
 			return len(x)
 		case *omap:
+			i.guardCheckObj(x, false)
 			return x.len()
 		case *chanv:
 			if x == nil {
